@@ -101,7 +101,8 @@ THEOREMS = [("Kopf.Props.C10", "Kopf.C10." + n) for n in [
     "essential_resets", "reset_iff_essential", "same_essence_never_resets", "nonessential_reset_regression",
     "view_is_created_or_essential", "postponed_only_by_essential", "interval_exact_unless_changed",
     "interval_postponed_by_own_patch_regression", "stopped_stays_respawnable", "failed_patch_keeps_timer",
-    "failed_patch_keeps_schedule", "raised_is_never_respawned_regression"]]
+    "failed_patch_keeps_schedule", "raised_is_never_respawned_regression",
+    "sleep_undisturbed_is_sleepUntil", "sleep_early_only_when_woken", "sleep_left_none_iff_full", "capped_sleep_witness"]]
 TIE_THEOREMS = [("Kopf.Tie.C10", "Kopf.C10.Tie." + n) for n in [
     "post_eq", "reset_top_eq", "at_top_eq", "restart_clock_eq", "at_start_eq", "forever_stopped_eq", "runner_marks_eq", "on_patch_error_eq", "reset_cond_eq", "resets_idle_eq", "stamp_sites_eq", "idle_cond_eq", "idle_delay_eq", "poll_cond_eq", "poll_delay_eq", "shape_eq", "stopper_guards_eq", "idle_step_eq", "poll_step_eq"]]
 RULE = ("seeded scenarios: 1-2 timers on 1-2 objects, all 16 presence combinations of interval/sharp/idle/initial_delay "
@@ -112,7 +113,9 @@ RULE = ("seeded scenarios: 1-2 timers on 1-2 objects, all 16 presence combinatio
         "dyadic times, label toggles (respawn) and operator restarts for timers with an interval, backoff 0, 12 % with API errors in the PATCHes "
         "that deliver a timer's result: HTTP 500/503 injected 1-9 times into one of them (retried by the client within the request; 4+ exhaust "
         "it), or an outage from some instant on (500/503/connection lost before or after the server applied it/403/422, 1-40 requests: the "
-        "undelivered patch is carried from run to run); a second pass replays a "
+        "undelivered patch is carried from run to run); 40 % of the scenarios are re-stated in another UNIT OF TIME (every duration and instant "
+        "multiplied by 7, 60, 600, 3600, 6 h, 1, 2, 7, 30 or 365 days: timers of minutes .. years, every sleep requested from the real "
+        "aiotime.sleep / asyncio timers under the virtual clock, histories of up to 20 years); a second pass replays a "
         "third of the scenarios with one extra edit placed exactly at an observed start, at start - idle, and 1 tick either "
         "side; one case = one loop iteration (or spawn -> first iteration), one processed event (reset decision) or one timer "
         "task's reads of idle_reset_time (derived view); distinct & non-trivial = distinct abstracted (option presence, carried "
@@ -784,15 +787,27 @@ def run_one(sc: dict, wall: float) -> dict:
     async def main() -> dict:
         sim = Sim10(copy.deepcopy(sc))
         holder["sim"] = sim
+        if sc.get("unit", 1) != 1:
+            # asyncio fires a timer when `when < time() + clock_resolution` (1e-9 s for the monotonic clock): beyond 2**24 s
+            # (194 days) that sum rounds back to time() and, the virtual clock standing still, a due timer would never fire.
+            # Every instant of a scenario is a multiple of 1/64 s, so 2**-12 s resolves them all up to 2**40 s.
+            asyncio.get_running_loop()._clock_resolution = 2.0 ** -12     # type: ignore[attr-defined]
         with observe.installed(sim.obs), probe.installed():
             return await sim.run()
 
+    # the one periodic constant of the operator that is not a setting: application.apply() re-visits an object every 10 min
+    # while it waits (for a stopped timer whose function still runs, here): it is re-stated in the scenario's unit as well
+    from kopf._core.actions import application as _application
+    keepalive = _application.WAITING_KEEPALIVE_INTERVAL
     try:
+        _application.WAITING_KEEPALIVE_INTERVAL = keepalive * int(sc.get("unit", 1))
         tr = simloop.run_sim(main, wall_limit=wall)
     except (simloop.SimDeadlock, simloop.SimStall) as e:
         sim = holder.get("sim")
         tr = sim.obs.trace() if sim is not None else {}
         tr["sim_error"] = f"{type(e).__name__}: {e}"
+    finally:
+        _application.WAITING_KEEPALIVE_INTERVAL = keepalive
     calls = [{k: c.get(k) for k in ("t", "t_end", "uid", "id", "retry", "outcome", "delay", "n", "inc")}
              for c in tr.get("calls", []) if c.get("kind") == "timer"]
     cycles = [{"i": c["i"], "t0": c["t0"], "t1": c.get("t1"), "uid": c["uid"], "name": c["body"].get("metadata", {}).get("name"),
@@ -998,6 +1013,59 @@ def gen_scenario(rng: Any, seed: int, combo: int) -> dict:
     sc["timeline"] = sorted(timeline, key=lambda e: e[0])
     sc["end"] = end
     return sc
+
+
+# Units of time. The property is invariant under a change of the unit: a timer declared in minutes, hours, days or weeks
+# obeys the same laws as one declared in seconds. The generator therefore re-states a generated scenario in another unit:
+# EVERY duration of the scenario (interval, idle, initial_delay, backoff, timeout, handler durations, error delays, the
+# instants of the timeline, the end, the start of an outage, the default backoff, the watch timeouts incl. the inactivity
+# timeout of 70 s after which kopf re-connects a silent watch and the 60 s at which it re-checks a stopped timer whose function
+# is still running: unscaled, a year of them is half a million re-connections / processing cycles) is multiplied by an
+# integer, so all instants stay dyadic and the history is the same history on a coarser clock; only the latency of the fake
+# API server (1/64 s per request) and the client's retry backoffs stay what they are. Sleeps of seconds .. months are
+# requested from the real aiotime.sleep / asyncio loop that way (the virtual clock jumps; nothing is stubbed), so anything
+# on the way that depends on the MAGNITUDE of a delay (a cap, a clamp, a unit conversion, an overflow, a "long enough"
+# short-cut) shows in the start instants the oracle judges. The unit grid covers every decade from a second to a year.
+UNITS = [1, 7, 60, 600, 3600, 6 * 3600, 86400, 2 * 86400, 7 * 86400, 30 * 86400, 365 * 86400]
+SCALED_OPTS = ("interval", "idle", "initial_delay", "backoff", "timeout")
+
+
+def _scale_action(a: Any, k: int) -> Any:
+    if isinstance(a, list) and a and a[0] == "sleep":
+        return ["sleep", a[1] * k, _scale_action(a[2], k)]
+    if isinstance(a, list) and a and a[0] == "temp":
+        return ["temp", a[1] * k] + a[2:]
+    if isinstance(a, list) and a and a[0] == "patch":
+        return ["patch", a[1], _scale_action(a[2], k)]
+    return a
+
+
+def scale_scenario(sc: dict, k: int) -> dict:
+    """The same scenario with the unit of time multiplied by the integer k (k = 1: the scenario itself)."""
+    if k == 1:
+        return sc
+    v = copy.deepcopy(sc)
+    v["unit"] = k
+    for h in v["handlers"]:
+        for o in SCALED_OPTS:
+            if h["opts"].get(o) is not None:
+                h["opts"][o] = h["opts"][o] * k
+        h["script"] = [_scale_action(a, k) for a in h.get("script", [])]
+        h["default"] = _scale_action(h.get("default", "ok"), k)
+    st = v.setdefault("settings", {})
+    for key, dflt in (("execution.default_backoff", 60.0), ("watching.server_timeout", 512.0), ("watching.client_timeout", 1024.0),
+                      ("watching.inactivity_timeout", 70.0), ("background.cancellation_polling", 60.0)):
+        st[key] = st.get(key, dflt) * k
+    v["timeline"] = [[e[0] * k] + e[1:] for e in v["timeline"]]
+    v["end"] = v["end"] * k
+    for f in v.get("faults", []):
+        if "after" in f.get("match", {}):
+            f["match"]["after"] = f["match"]["after"] * k
+    return v
+
+
+def gen_unit(rng: Any) -> int:
+    return 1 if rng.random() < 0.6 else rng.choice(UNITS[1:])
 
 
 def boundary_variants(rng: Any, sc: dict, tr: dict, seed: int, how_many: int) -> list[dict]:
@@ -1635,6 +1703,7 @@ def _evaluate(ctx: Ctx, scenarios: list[dict], results: list[dict], stats: dict,
     reqs: list[Any] = []
     meta: list[tuple[dict, dict]] = []
     good: list[tuple[dict, dict]] = []
+    pending_stalls: list[str] = []
     for sc, res in zip(scenarios, results):
         if res.get("stall"):
             # a non-suspending spin: C09's subject (idle-only poll loop with the stopper set), not this property
@@ -1642,7 +1711,10 @@ def _evaluate(ctx: Ctx, scenarios: list[dict], results: list[dict], stats: dict,
             ctx.count("scenarios", "stall-in-_timer(skipped)" if where else "stall-elsewhere(skipped)")
             stats["stalls"] += 1
             if not where:
-                raise RuntimeError(f"simulation stalled outside _timer: {res.get('stderr', '')[-1500:]}")
+                # not a verdict by itself (exit 2) — unless the same run has a concrete failing history already: a change that
+                # makes timers run too often turns the longest histories into millions of runs (wall limit) while the shorter
+                # ones show the violation; the stall is raised at the end of the batch if no oracle failure explains it
+                pending_stalls.append(f"simulation stalled outside _timer: {res.get('stderr', '')[-1500:]}")
             continue
         if "trace" not in res:
             raise RuntimeError(f"simulation failed: {str(res)[:2000]}")
@@ -1656,6 +1728,11 @@ def _evaluate(ctx: Ctx, scenarios: list[dict], results: list[dict], stats: dict,
         for h, cfg in cfgs.items():
             ctx.count("presence(interval,sharp,idle,initial_delay)",
                       "".join("1" if x else "0" for x in (cfg["interval"] is not None, cfg["sharp"], cfg["idle"] is not None, cfg["initial_delay"] is not None)))
+        ctx.count("unit-of-time(s)", sc.get("unit", 1))
+        for h, cfg in cfgs.items():
+            longest = max([x for x in (cfg["interval"], cfg["idle"], cfg["initial_delay"]) if x is not None] or [0.0])
+            ctx.count("longest-declared-delay", "<1min" if longest < 60 else "<1h" if longest < 3600 else "<=1day" if longest <= 86400
+                      else "<=30days" if longest <= 30 * 86400 else ">30days")
         if sc.get("boundary"):
             ctx.count("boundary-edit", f"{sc['boundary']['target']}{sc['boundary']['delta_ticks']:+d}")
         if not with_tie:
@@ -1704,6 +1781,8 @@ def _evaluate(ctx: Ctx, scenarios: list[dict], results: list[dict], stats: dict,
                 continue
             reqs.append(item["req"])
             meta.append((sc, item))
+    if pending_stalls and not any(f.kind == "oracle" for f in ctx.failures):
+        raise RuntimeError(pending_stalls[0])
     if with_tie and reqs:
         try:
             outs = ctx.driver.ask(reqs)
@@ -1728,7 +1807,7 @@ def run(ctx: Ctx) -> None:
     n_base = max(16, (n_total * 2) // 3)
     stats: dict[str, Any] = {"rt": {}, "slack": {}, "sharp_k": {}, "stalls": 0}
     corpus = [sc for _, sc in _corpus()]
-    base = [gen_scenario(ctx.rng, ctx.seed * 1_000_000 + i, i % 16) for i in range(n_base)]
+    base = [scale_scenario(gen_scenario(ctx.rng, ctx.seed * 1_000_000 + i, i % 16), gen_unit(ctx.rng)) for i in range(n_base)]
     scenarios = corpus + base
     chunk = 3000
     n_var_total = 0
@@ -1768,7 +1847,7 @@ def search(ctx: Ctx, broken: list) -> None:
         sc = (rep.get("input") or {}).get("scenario") or rep.get("scenario")
         if sc:
             first.append(sc)
-    scenarios = first + [sc for _, sc in _corpus()] + [gen_scenario(ctx.rng, 7_000_000 + ctx.seed * 1_000_000 + i, i % 16) for i in range(n)]
+    scenarios = first + [sc for _, sc in _corpus()] + [scale_scenario(gen_scenario(ctx.rng, 7_000_000 + ctx.seed * 1_000_000 + i, i % 16), gen_unit(ctx.rng)) for i in range(n)]
     for lo in range(0, len(scenarios), 400):
         part = scenarios[lo:lo + 400]
         good = _evaluate(ctx, part, run_many(part, wall=20.0), stats, with_tie=False)
